@@ -248,6 +248,18 @@ def assumptions_ok(assm):
 # ---------------------------------------------------------------------------
 # Correspondence: cases evaluated inside Coq
 
+MAX_SHARD_CHARS = 350_000
+
+
+def _big_stack():
+    import resource
+    try:
+        soft, hard = resource.getrlimit(resource.RLIMIT_STACK)
+        resource.setrlimit(resource.RLIMIT_STACK, (hard, hard))
+    except Exception:
+        pass
+
+
 def run_cases(corr_module, cases, shard=300, check="check_case", timeout=900, opens=""):
     """cases: list of Gallina terms of type <corr_module>.case.
 
@@ -259,9 +271,16 @@ def run_cases(corr_module, cases, shard=300, check="check_case", timeout=900, op
     tmp = tempfile.mkdtemp(prefix="verif_cases_")
     try:
         jobs = []
-        for k in range(0, len(cases), shard):
-            chunk = cases[k:k + shard]
-            name = f"cases_{os.getpid()}_{k // shard}"
+        # shards are bounded by count AND by text size (a multi-megabyte literal overflows coqc's stack)
+        bounds, start, size = [], 0, 0
+        for i, c in enumerate(cases):
+            if i > start and (i - start >= shard or size + len(c) > MAX_SHARD_CHARS):
+                bounds.append((start, i)); start, size = i, 0
+            size += len(c)
+        bounds.append((start, len(cases)))
+        for sn, (k, kend) in enumerate(bounds):
+            chunk = cases[k:kend]
+            name = f"cases_{os.getpid()}_{sn}"
             body = (
                 "From Coq Require Import ZArith NArith List String Bool.\n"
                 f"From FcpV Require Import Base.Cases Corr.{corr_module}.\n"
@@ -279,7 +298,7 @@ def run_cases(corr_module, cases, shard=300, check="check_case", timeout=900, op
         def one(job):
             k, path = job
             r = subprocess.run(["coqc", "-Q", COQ, "FcpV", "-w", "-notation-overridden", path],
-                               capture_output=True, text=True, timeout=timeout, cwd=tmp)
+                               capture_output=True, text=True, timeout=timeout, cwd=tmp, preexec_fn=_big_stack)
             if r.returncode != 0:
                 keep = os.path.join(VERIF, "replays", "_failed_case_file.v")
                 os.makedirs(os.path.dirname(keep), exist_ok=True)
